@@ -544,6 +544,19 @@ static std::string RunVarC(const std::vector<std::string>& ops) {
   return out;
 }
 
+// bool alternatives and pointers: a pointer never converts to the bool alternative (the library's IsConstructible
+// excludes it), on construction as on assignment
+static std::string VarBool() {
+  std::string bad;
+  const char* p = "abc";
+  { nop::Variant<bool, std::string> v("abc"); if (!v.is<std::string>() || v.get<std::string>() == nullptr || *v.get<std::string>() != "abc") bad += " ctor-literal:" + std::to_string(v.index()); }
+  { nop::Variant<int, bool, std::string> v(p); if (v.index() != 2) bad += " ctor-pointer:" + std::to_string(v.index()); }
+  { nop::Variant<bool, std::string> v; v = "abc"; if (!v.is<std::string>()) bad += " assign-literal:" + std::to_string(v.index()); }
+  { nop::Variant<bool, std::string> v(true); if (!v.is<bool>() || !*v.get<bool>()) bad += " ctor-bool:" + std::to_string(v.index()); v = p; if (!v.is<std::string>()) bad += " assign-pointer:" + std::to_string(v.index()); }
+  { nop::Variant<std::string, bool> v(p); if (v.index() != 0) bad += " ctor-pointer-string-first:" + std::to_string(v.index()); }
+  return "varbool=" + (bad.empty() ? std::string("ok") : bad.substr(1));
+}
+
 // -------------------------------------------------------------- UniqueHandle --
 static std::vector<long> g_closed, g_released;
 struct CountPolicy {
@@ -824,6 +837,7 @@ int main() {
       else if (tok[0] == "var") out = RunVar(ops);
       else if (tok[0] == "varm") out = RunVarM(ops);
       else if (tok[0] == "varc") out = RunVarC(ops);
+      else if (tok[0] == "varbool") out = VarBool();
       else if (tok[0] == "uh") out = RunUh(ops);
       else if (tok[0] == "ufh") out = RunUfh(ops);
       else if (tok[0] == "udh") out = RunUdh(ops);
